@@ -5,6 +5,7 @@ import (
 	"fmt"
 	"sort"
 	"strings"
+	"sync/atomic"
 
 	"google.golang.org/protobuf/proto"
 
@@ -21,6 +22,8 @@ type Case struct {
 	Family string           `json:"family,omitempty"`
 	// set in artefacts: restrict to one mutation
 	Only string `json:"only,omitempty"`
+	// also import the graph through the real manifest reader (files are written: done on a subset of the graphs)
+	Reader bool `json:"reader,omitempty"`
 }
 
 // hashes: module name -> hash, for every module that can be staged as an output ("" when it cannot).
@@ -528,16 +531,55 @@ func evalFull(cs Case) result {
 			}
 		}
 	}
+	// alias import and binary re-indexing through the real manifest reader
+	for _, v := range readerVariants {
+		n := fmt.Sprintf("reader-import(depth=%d,binaries=%d,step=%d,offset=%d)", v[0], v[1], v[2], v[3])
+		if cs.Only != "" && cs.Only != n {
+			continue
+		}
+		if !cs.Reader && cs.Only == "" {
+			break
+		}
+		sp := spread(base, v[1], v[2], v[3])
+		hs, ok := hashes(sp)
+		if !ok {
+			continue
+		}
+		mm, prefix, err := importThroughReader(sp, v[0])
+		if err != nil {
+			return result{fail: core.Failf("preserving-transformation-rejected:reader-import", "%s: %s: the manifest reader rejects the import: %v", desc(), n, err), nt: res.nt}
+		}
+		h1, ok := hashes(mm)
+		if !ok {
+			return result{fail: core.Failf("preserving-transformation-rejected:reader-import", "%s: %s: the merged package is rejected", desc(), n), nt: res.nt}
+		}
+		for j := range g {
+			old := modgen.Name(j)
+			if hs[old] != h1[prefix+old] {
+				return result{fail: core.Failf("hash-changed-by:reader-import", "%s: hash of %s (binary %d of %d) changed from %s to %s when its package is imported through the manifest reader as %s%s [%s]", desc(), old, sp.Modules[j].BinaryIndex, v[1], hs[old], h1[prefix+old], prefix, old, n), nt: res.nt}
+			}
+		}
+	}
 	return res
 }
+
+// (depth, number of binaries, step, offset): module i of the imported package runs from binary (i*step+offset) % binaries
+var readerVariants = [][4]int{{1, 1, 0, 0}, {1, 2, 1, 0}, {1, 2, 1, 1}, {1, 3, 1, 0}, {1, 3, 2, 1}, {2, 1, 0, 0}, {2, 2, 1, 0}, {2, 2, 1, 1}, {2, 3, 1, 2}}
 
 func Eval(cs Case) (*core.Fail, bool) {
 	r := evalFull(cs)
 	return r.fail, r.nt
 }
 
+var readerAll = false
+
+// readerFor: which generated graphs also go through the manifest reader (file I/O: ~10 reader runs per graph).
+func readerFor(n, ordinal int) bool { return readerAll || n <= 2 }
+
 func Run(ctx *core.Ctx) int {
 	ctx.Level = "exploration"
+	defer cleanupScratch()
+	readerAll = ctx.Args["reader-all"] != ""
 	if ctx.Replay != "" {
 		return core.RunReplay(ctx, Eval)
 	}
@@ -559,7 +601,7 @@ func Run(ctx *core.Ctx) int {
 		for _, t := range tiers {
 			ok := modgen.EnumGraphs(t.n, t.o, func(g modgen.GraphSpec) bool {
 				graphs++
-				return emit(Case{Graph: g})
+				return emit(Case{Graph: g, Reader: readerFor(t.n, graphs)})
 			})
 			if !ok {
 				return
@@ -567,7 +609,7 @@ func Run(ctx *core.Ctx) int {
 		}
 		for n, g := range modgen.Families() {
 			graphs++
-			emit(Case{Graph: g, Family: n})
+			emit(Case{Graph: g, Family: n, Reader: true})
 		}
 	}, Eval)
 	// informational pass on the families: what the hash does with unlisted fields
@@ -587,6 +629,7 @@ func Run(ctx *core.Ctx) int {
 	ctx.Sample(map[string]any{"graph": describe(modgen.Families()["diamond6"]), "mutations": "every single-field mutation of every module + 5 identity-preserving transformations"})
 	ctx.Cov["evaluations"] = st.Evaluations
 	ctx.Cov["graphs_generated"] = graphs
+	ctx.Cov["manifest_reader_imports"] = atomic.LoadInt64(&readerRuns)
 	ctx.Cov["distinct_nontrivial"] = st.NonTrivial
 	ctx.Cov["exhaustive"] = true
 	ctx.Cov["unlisted_fields_information"] = infoOut
